@@ -17,3 +17,20 @@ contract(
         ]),
     },
 )
+
+# ---- deleting a ref removes its packed copy as well (otherwise the packed value reappears) ------------------------
+# ghost: upred('unpacked', name) is established only by _remove_packed_ref(name); a successful remove_if_equals must
+# have made that call whatever it found in the loose file (mode C; the file contents themselves: bounded stand-in)
+from pyvc.contract import REGISTRY
+from contracts.c07_file import ANY
+import contracts.c08_refs  # noqa: F401  (the mutators' C07/C08 contracts are extended here)
+
+contract(prop=["C16"], file="<abstract>", func="DiskRefsContainer._remove_packed_ref@ghost", trusted=True,
+         params={"self": "obj:DiskRefsContainer", "name": "opaque"}, returns="None", raises={ANY: None},
+         ensures=["upred('unpacked', name)"],
+         note="ghost marker of the call; the body of _remove_packed_ref is verified for C07/C08 only (lock discipline)")
+_c = REGISTRY[(R, "DiskRefsContainer.remove_if_equals")]
+_c.prop = sorted(set(_c.prop) | {"C16"})
+_c.ensures = list(_c.ensures) + ["result is False or upred('unpacked', name)"]
+_c.options = dict(_c.options, callee_contracts=dict(_c.options.get("callee_contracts", {}),
+                  **{"DiskRefsContainer._remove_packed_ref": ("<abstract>", "DiskRefsContainer._remove_packed_ref@ghost")}))
